@@ -308,23 +308,33 @@ def native_run(cases, scratch):
         ov[os.path.join(REPO, rel, "zz_verif_replay_test.go")] = tf
         ovf = os.path.join(scratch, "overlay_%s.json" % rel.replace("/", "_"))
         json.dump({"Replace": ov}, open(ovf, "w"))
-        cf = os.path.join(scratch, "cases_%s.json" % rel.replace("/", "_"))
-        json.dump([{"harness": fn, "values": c.get("values", {}), "params": c.get("params", {})} for _, fn, c in lst], open(cf, "w"))
-        env = dict(GOENV, VERIF_CASES=cf)
-        r = sh(["go", "test", "-vet=off", "-count=1", "-timeout", "20m", "-overlay", ovf, "-run", "^TestZZVerifReplay$", "-v", "./" + rel],
-               cwd=REPO, env=env)
-        logs.append(r.stdout[-3000:])
-        got = {}
-        for line in r.stdout.splitlines():
-            if line.startswith("ZZVERIF-CASE "):
-                try:
-                    j = json.loads(line[len("ZZVERIF-CASE "):])
-                    got[j["i"]] = j
-                except Exception:
-                    pass
-        for k, (idx, fn, c) in enumerate(lst):
-            results[idx] = got.get(k, {"error": "no native result", "log": r.stdout[-1500:]})
+        # one test process per NATIVE_CHUNK cases: every case opens its own SQLite files, and a single process running
+        # thousands of them runs out of file descriptors
+        for c0 in range(0, len(lst), NATIVE_CHUNK):
+            part = lst[c0:c0 + NATIVE_CHUNK]
+            cf = os.path.join(scratch, "cases_%s_%d.json" % (rel.replace("/", "_"), c0))
+            json.dump([{"harness": fn, "values": c.get("values", {}), "params": c.get("params", {})} for _, fn, c in part], open(cf, "w"))
+            env = dict(GOENV, VERIF_CASES=cf)
+            r = sh(["go", "test", "-vet=off", "-count=1", "-timeout", "20m", "-overlay", ovf, "-run", "^TestZZVerifReplay$", "-v", "./" + rel],
+                   cwd=REPO, env=env)
+            logs.append(r.stdout[-3000:])
+            got = {}
+            for line in r.stdout.splitlines():
+                if line.startswith("ZZVERIF-CASE "):
+                    try:
+                        j = json.loads(line[len("ZZVERIF-CASE "):])
+                        got[j["i"]] = j
+                    except Exception:
+                        pass
+            for k, (idx, fn, c) in enumerate(part):
+                res = got.get(k, {"error": "no native result", "log": r.stdout[-1500:]})
+                if "i" in res:
+                    res["i"] = c0 + k
+                results[idx] = res
     return results, logs
+
+
+NATIVE_CHUNK = 250
 
 
 # ------------------------------------------------------------------------------------------ main check
